@@ -253,7 +253,9 @@ def cc_monitor_lines(case, answer):
     for k, (it, an) in enumerate(zip(items, answers)):
         w = an.split()
         if it[0] in "lg" and it[1:2] == ":" and len(w) == 6:
-            pk = w[1] if w[0] == "ok" else w[2]
+            if w[0] != "ok":
+                continue                      # a refused constant obliges nobody to emit its pool
+            pk = w[1]
             if it[0] == "g" or any(i2 == "E" and a2 == "ok" for i2, a2 in list(zip(items, answers))[k + 1:]):
                 must.add(pk)
     out = []
